@@ -432,6 +432,12 @@ pub fn run(args: &[String]) -> ! {
 
     if let Some(r) = ctx.replay.clone() {
         let c = &r["case"];
+        if c.get("world").is_some() {
+            if !super::keychecks::replay(&mut ctx, "C11") {
+                ctx.machinery_error("replay names an unknown world".into());
+            }
+            ctx.finish();
+        }
         let kind = match c["kind"].as_str() {
             Some("oauth2session") => Kind::Oauth2,
             Some("key_internal") => Kind::Key,
@@ -607,5 +613,12 @@ pub fn run(args: &[String]) -> ! {
     ctx.assume("the attribute-level merge is mirrored from Entry::merge_state (newer attribute cid is `self`); entry-level conformance on live replicas is covered by C08");
     ctx.assume("other fields of a session/key (label, scope, der) are identical on all replicas for the same id, as they are immutable after issue");
     ctx.assume("order/grouping independence is claimed only while trim_cid has not passed a revocation (the statement's changelog window)");
+    // the replicated half on live servers: key revocations on two real replicas, merges in both
+    // directions, time jumps past the changelog window (world KEYS)
+    let key_budget = if ctx.quick() { 35.0 } else { 900.0 };
+    let capped = super::keychecks::run_worlds(&mut ctx, "C11", key_budget);
+    if capped {
+        ctx.assume("the KEYS world was cut by its wall-clock budget: it is complete only below the stated depth");
+    }
     ctx.finish();
 }
